@@ -576,8 +576,10 @@ struct Visitor : RecursiveASTVisitor<Visitor> {
       X["implicit"] = C->isImplicit(); X["defaulted"] = C->isDefaulted(); X["deleted"] = C->isDeleted();
       X["kind"] = C->isCopyConstructor() ? "copy" : C->isMoveConstructor() ? "move" : C->isDefaultConstructor() ? "default" : "other";
       X["line"] = D.lineOf(C->getLocation());
+      if (C->isInheritingConstructor()) X["inheriting"] = true;   // using Base::Base - own fields get only their default member initialisers
       Ctors.push_back(std::move(X));
     }
+    for (auto *DD : R->decls()) if (auto *UD = dyn_cast<UsingDecl>(DD)) for (auto *SD : UD->shadows()) if (isa<ConstructorUsingShadowDecl>(SD)) { O["inherits_ctors"] = true; break; }
     O["ctors"] = std::move(Ctors);
     if (auto *Dt = R->getDestructor()) {
       json::Object X; X["usr"] = D.usr(Dt); X["implicit"] = Dt->isImplicit(); X["defaulted"] = Dt->isDefaulted();
